@@ -592,8 +592,9 @@ def features(case, outs):
                 f.append("nq:after-zero-token-doc-removed")
             if op == "nq" and any(not ws for ws in toks.values()):
                 f.append("nq:zero-token-doc-present")
-            vocab = set().union(*toks.values()) if toks else set()
-            for g in re.findall(r"[\w*?]+", q.lower()):
+            globs = [g for g in re.findall(r"[\w*?]+", q.lower()) if "*" in g or "?" in g]
+            vocab = set().union(*[ws for d, ws in toks.items() if d != 1000]) if globs and toks else set()
+            for g in globs:                                 # (the bulk document's filler words are left out)
                 for k in glob_classes(g, vocab):
                     f.append(k)
                     if "(" in k or "beyond" in k:
